@@ -458,3 +458,37 @@ def cfg_of(func_node: ast.AST) -> CFG:
     if k not in _CACHE:
         _CACHE[k] = CFG(func_node)
     return _CACHE[k]
+
+
+def reachable_with_flag(g: CFG, starts: Iterable[Tuple[int, Optional[bool]]], flag: str,
+                        follow_exc: bool = False) -> Set[int]:
+    """Reachability that tracks one boolean local *flag* (constant assignments,
+    ``if flag:`` / ``if not flag:`` tests) so the 'set flag; break; if flag: break'
+    idiom is followed path-sensitively."""
+    seen: Set[Tuple[int, Optional[bool]]] = set()
+    work = list(starts)
+    while work:
+        n, val = work.pop()
+        if (n, val) in seen:
+            continue
+        seen.add((n, val))
+        node = g.nodes[n]
+        out_val = val
+        if node.kind == "stmt" and isinstance(node.ast, ast.Assign) and len(node.ast.targets) == 1 and \
+                isinstance(node.ast.targets[0], ast.Name) and node.ast.targets[0].id == flag:
+            v = node.ast.value
+            out_val = bool(v.value) if isinstance(v, ast.Constant) else None
+        for d, lab in g.succ[n]:
+            if not follow_exc and (lab or "").startswith("exc"):
+                continue
+            if node.kind == "test" and lab in ("T", "F") and out_val is not None:
+                t = node.ast
+                neg = False
+                if isinstance(t, ast.UnaryOp) and isinstance(t.op, ast.Not):
+                    t, neg = t.operand, True
+                if isinstance(t, ast.Name) and t.id == flag:
+                    truth = out_val != neg
+                    if (lab == "T") != truth:
+                        continue
+            work.append((d, out_val))
+    return {n for n, _ in seen}
